@@ -1222,6 +1222,14 @@ def list_sort(ip, recv, args, kwargs, node):
     if not has_sym(recv) and key is None and not has_sym(rev):
         recv.sort(reverse=rev)
         return None
+    if key is not None and not has_sym(rev) and isinstance(recv, list):
+        # concrete keys (the elements may be interpreted objects): evaluate the key function through the interpreter and let
+        # CPython's own stable sort order the elements by those keys
+        keys = [ip.call(key, [x], {}, node) for x in recv]
+        if not any(has_sym(k) for k in keys):
+            order = sorted(range(len(recv)), key=lambda i: keys[i], reverse=bool(rev))
+            recv[:] = [recv[i] for i in order]
+            return None
     raise Unsupported("list.sort on symbolic content (use the list.sort contract)")
 
 
